@@ -825,8 +825,8 @@ theorem C19_write_nopanic_any_writer (P : WriterPolicy) (N : Str → Str) (env :
     (serializeHtmlWriteNW P N env p t start).2 ≠ .panic ∧ (serializeHtmlWriteW P env p t start).2 ≠ .panic := by
   have key : ∀ N, (serializeHtmlWriteNW P N env p t start).2 ≠ .panic := by
     intro N h
-    rw [serializeHtmlWriteNW_eq_runCalls] at h
-    have h2 := runCalls_panic P [] _ h
+    rw [serializeHtmlWriteNW_eq_replayCalls] at h
+    have h2 := replayCalls_panic P [] _ h
     have h3 : (serializeHtmlCallsN N env p t start).2 = (serializeHtmlWriteN N env p t start).2 :=
       congrArg Prod.snd (serializeHtmlCallsN_eq N env p t start)
     rw [h3, serializeHtmlWriteN_outcome] at h2
@@ -864,15 +864,15 @@ theorem C19_write_fails_with_io (P : WriterPolicy) (N : Str → Str) (env : Env)
   have h1 : (serializeHtmlCallsN N env p t start).1.flatten = (serializeHtmlWriteN N env p t start).1 :=
     congrArg Prod.fst hcalls
   have hpre : ∃ rest, (serializeHtmlWriteN N env p t start).1 = (serializeHtmlWriteNW P N env p t start).1 ++ rest := by
-    obtain ⟨rest, h⟩ := runCalls_prefix P [] (serializeHtmlCallsN N env p t start)
-    rw [← serializeHtmlWriteNW_eq_runCalls, List.nil_append, h1] at h
+    obtain ⟨rest, h⟩ := replayCalls_prefix P [] (serializeHtmlCallsN N env p t start)
+    rw [← serializeHtmlWriteNW_eq_replayCalls, List.nil_append, h1] at h
     exact ⟨rest, h⟩
   have hdich : (∃ b, writeCalls P [] (serializeHtmlCallsN N env p t start).1 = .error b ∧
           serializeHtmlWriteNW P N env p t start = (b, .err .io)) ∨
       (writeCalls P [] (serializeHtmlCallsN N env p t start).1 = .ok (serializeHtmlCallsN N env p t start).1 ∧
           serializeHtmlWriteNW P N env p t start = serializeHtmlWriteN N env p t start) := by
-    rw [serializeHtmlWriteNW_eq_runCalls]
-    unfold runCalls
+    rw [serializeHtmlWriteNW_eq_replayCalls]
+    unfold replayCalls
     cases hw : writeCalls P [] (serializeHtmlCallsN N env p t start).1 with
     | error b => exact Or.inl ⟨b, rfl, rfl⟩
     | ok h =>
@@ -893,11 +893,11 @@ theorem C19_write_fails_with_io (P : WriterPolicy) (N : Str → Str) (env : Env)
     · rw [hb] at hne; exact absurd rfl hne
     · rw [hall]; exact ⟨_, rfl⟩
   · intro k hk
-    rw [serializeHtmlWriteNW_eq_runCalls, runCalls_budget, if_pos hk]
+    rw [serializeHtmlWriteNW_eq_replayCalls, replayCalls_budget, if_pos hk]
     exact hcalls
   · intro k hk
-    rw [serializeHtmlWriteNW_eq_runCalls, runCalls_budget, if_neg (by omega)]
-  · rw [serializeHtmlWriteNW_eq_runCalls, runCalls_budget, if_neg (by omega)]
+    rw [serializeHtmlWriteNW_eq_replayCalls, replayCalls_budget, if_neg (by omega)]
+  · rw [serializeHtmlWriteNW_eq_replayCalls, replayCalls_budget, if_neg (by omega)]
     simp
 
 /-- **Which error wins** when the serialisation itself fails (`ProcessingInstructionGtInHtml`, `MissingPrefix`,
@@ -920,11 +920,11 @@ theorem C19_write_error_priority (P : WriterPolicy) (N : Str → Str) (env : Env
     rw [← he']; exact congrArg Prod.snd (serializeHtmlCallsN_eq N env p t start)
   refine ⟨?_, ?_, ?_, ?_⟩
   · intro hw
-    rw [serializeHtmlWriteNW_eq_runCalls]
-    simp only [runCalls, hw, h2]
+    rw [serializeHtmlWriteNW_eq_replayCalls]
+    simp only [replayCalls, hw, h2]
   · intro b hw
-    rw [serializeHtmlWriteNW_eq_runCalls]
-    simp only [runCalls, hw]
+    rw [serializeHtmlWriteNW_eq_replayCalls]
+    simp only [replayCalls, hw]
   · intro k hk
     rw [(C19_write_fails_with_io (WriterPolicy.budget (some k)) N env p t start).2.2.2.2.1 k hk, he']
   · intro k hk
